@@ -100,3 +100,115 @@ Print Assumptions chunks_before_message.
 Example quoted_newline_not_quiet :
   scan_quiet 12 [68;68;32;34;97;10]%N 0 = false.
 Proof. vm_compute. reflexivity. Qed.
+
+(* the two remaining clauses of the input function, by unfolding: a zero-length call runs SCPI_Parse on exactly the pending
+   bytes and empties the buffer; a chunk that does not fit discards the pending bytes, queues -363 and reports failure *)
+Theorem flush_executes_pending c d :
+  input_core c [] d = (upd_mem (fst (scpi_parse c (Z.of_nat (length (mem c))) d)) [], snd (scpi_parse c (Z.of_nat (length (mem c))) d)).
+Proof. unfold input_core. cbn [length Z.of_nat Z.eqb]. destruct (scpi_parse c (Z.of_nat (length (mem c))) d) as [c1 res]. reflexivity. Qed.
+Theorem overrun_discards c x d : x <> [] -> cap c - Z.of_nat (length (mem c)) - 1 < Z.of_nat (length x) ->
+  input_core c x d = (error_push (upd_mem c []) (-363) None, false).
+Proof.
+  intros Hx Hbig. unfold input_core.
+  assert (Hl : Z.of_nat (length x) <> 0) by (destruct x; [congruence|cbn [length]; lia]).
+  destruct (Z.eqb_spec (Z.of_nat (length x)) 0); [contradiction|].
+  destruct (Z.ltb_spec (cap c - Z.of_nat (length (mem c)) - 1) (Z.of_nat (length x))); [reflexivity|lia].
+Qed.
+Print Assumptions flush_executes_pending.
+
+(* ---------- reduction of the partition statement to single splits ---------- *)
+(* If, for a class P of (context, pending stream) pairs that is kept by feeding a prefix, cutting the stream once is
+   invisible, then every partition into non-empty chunks behaves like one chunk.  (The class "no proper prefix completes a
+   message" satisfies the hypothesis: split_before_message; the general class is where the recorded finding lives.) *)
+Section Partition.
+Variable d : Z -> bytes.
+Variable P : ctx -> bytes -> Prop.
+Hypothesis split_invisible : forall c x y, P c (x ++ y) -> x <> [] -> y <> [] ->
+  fst (input_core (fst (input_core c x d)) y d) = fst (input_core c (x ++ y) d) /\ P (fst (input_core c x d)) y.
+Theorem partition_reduction : forall chunks c, chunks <> [] -> Forall (fun x => x <> []) chunks -> P c (concat chunks) ->
+  feed c chunks d = fst (input_core c (concat chunks) d).
+Proof.
+  induction chunks as [|x r IH]; intros c Hne Hall HP; [congruence|]. inversion Hall as [|? ? Hx Hr]; subst.
+  cbn [feed concat]. destruct r as [|y r'].
+  - cbn [feed concat]. now rewrite app_nil_r.
+  - assert (Hc : concat (y :: r') <> []) by (inversion Hr as [|? ? Hy _]; subst; cbn [concat]; destruct y; [congruence|discriminate]).
+    destruct (split_invisible c x (concat (y :: r')) HP Hx Hc) as [E HP'].
+    rewrite (IH (fst (input_core c x d)) ltac:(discriminate) Hr HP'). exact E.
+Qed.
+End Partition.
+Print Assumptions partition_reduction.
+
+(* instance: a stream none of whose proper prefixes completes a message (one message arriving in pieces, whatever it
+   contains) -- every partition, byte-at-a-time included, behaves like the delivery in one call *)
+Definition quiet_class (c:ctx) (s:bytes) : Prop :=
+  Z.of_nat (length s) <= cap c - Z.of_nat (length (mem c)) - 1 /\
+  forall p q, s = p ++ q -> p <> [] -> q <> [] -> scan_quiet (S (S (length (mem c ++ p)))) (mem c ++ p) 0 = true.
+Lemma quiet_split d c x y : quiet_class c (x ++ y) -> x <> [] -> y <> [] ->
+  fst (input_core (fst (input_core c x d)) y d) = fst (input_core c (x ++ y) d) /\ quiet_class (fst (input_core c x d)) y.
+Proof.
+  intros [Hfit Hq] Hx Hy. rewrite app_length, Nat2Z.inj_add in Hfit.
+  pose proof (Hq x y eq_refl Hx Hy) as Hqx.
+  split.
+  - now rewrite (split_before_message c x y d Hx Hy Hfit Hqx).
+  - rewrite (quiet_chunk_accumulates c x d Hx ltac:(lia) Hqx). cbn [fst]. unfold quiet_class. cbn [mem cap upd_mem].
+    split; [rewrite app_length; lia|]. intros p q E Hp Hq'. rewrite <- app_assoc. apply (Hq (x ++ p) q).
+    + rewrite E, app_assoc. reflexivity.
+    + destruct x; [congruence|discriminate].
+    + exact Hq'.
+Qed.
+Theorem partition_one_message d chunks c : chunks <> [] -> Forall (fun x => x <> []) chunks -> quiet_class c (concat chunks) ->
+  feed c chunks d = fst (input_core c (concat chunks) d).
+Proof. intros. apply (partition_reduction d quiet_class (quiet_split d)); assumption. Qed.
+Print Assumptions partition_one_message.
+
+(* a buffer without CR and LF never looks like a finished message, so a message that contains neither (no line terminator
+   inside strings or blocks) and ends with its terminator is in the class above *)
+Definition no_nl (m:bytes) : Prop := forall b, In b m -> b <> 10%N /\ b <> 13%N.
+Lemma newline_none l : (match l with b :: _ => b <> 10%N /\ b <> 13%N | [] => True end) -> LexModel.ret (LexModel.lex_newline l) = 0.
+Proof.
+  destruct l as [|b r]; [reflexivity|]. intros [H10 H13]. unfold LexModel.lex_newline. cbn [LexModel.skip_opt].
+  unfold LexModel.ischr. apply N.eqb_neq in H10, H13. rewrite H13. cbn [LexModel.skip_opt]. rewrite H10.
+  unfold LexModel.used. rewrite Z.sub_diag. reflexivity.
+Qed.
+Lemma in_skipn {A} (x:A) : forall n l, In x (skipn n l) -> In x l.
+Proof. induction n as [|n IH]; intros [|y l]; cbn [skipn]; auto. intro H. right. now apply IH. Qed.
+Lemma unit_term_no_nl l : no_nl l -> LexModel.u_term (LexModel.detect_unit l) <> LexModel.TERM_NL.
+Proof.
+  intros Hn. unfold LexModel.detect_unit.
+  assert (G : forall p, LexModel.ret (LexModel.lex_newline (LexModel.drop p l)) = 0).
+  { intro p. apply newline_none. unfold LexModel.drop. unfold LexModel.bytes, LexModel.byte in *.
+    assert (Hs : forall b, In b (skipn (Z.to_nat p) l) -> b <> 10%N /\ b <> 13%N) by (intros b Hb; apply Hn; eapply in_skipn; exact Hb).
+    destruct (skipn (Z.to_nat p) l) as [|b r]; [exact I|]. apply Hs. now left. }
+  destruct (0 <? LexModel.disp (LexModel.lex_ws (LexModel.drop (LexModel.disp (LexModel.lex_ws l) + LexModel.disp (LexModel.lex_header (LexModel.drop (LexModel.disp (LexModel.lex_ws l)) l))) l)));
+  rewrite !G; cbn [Z.eqb negb];
+  match goal with |- context [if ?c then _ else _] => match c with negb (LexModel.iseos _) && _ => destruct c end end;
+  cbn [LexModel.u_term]; destruct (negb (LexModel.ret (LexModel.lex_semicolon _) =? 0)); discriminate.
+Qed.
+Lemma no_nl_quiet fuel : forall m tot, no_nl m -> scan_quiet fuel m tot = true.
+Proof.
+  induction fuel as [|f IH]; intros m tot Hn; [reflexivity|]. cbn [scan_quiet].
+  assert (Hd : no_nl (dropm m tot)) by (intros b Hb; apply Hn; unfold dropm in Hb; eapply in_skipn; exact Hb).
+  pose proof (unit_term_no_nl _ Hd) as Ht.
+  destruct (LexModel.u_term (LexModel.detect_unit (dropm m tot))); try congruence;
+  (destruct (_ && _); [reflexivity|]; destruct (_ <=? _); [reflexivity|]; now apply IH).
+Qed.
+Theorem message_in_pieces c msg t : mem c = [] -> no_nl msg -> Z.of_nat (length msg) + 1 <= cap c - 1 -> quiet_class c (msg ++ [t]).
+Proof.
+  intros Hm Hn Hfit. unfold quiet_class. rewrite Hm. cbn [length app]. split; [rewrite app_length; cbn [length]; lia|].
+  intros p q E Hp Hq. apply no_nl_quiet. intros b Hb.
+  (* p is a prefix of msg because q is not empty *)
+  assert (Hpre : exists q', msg = p ++ q').
+  { destruct (exists_last Hq) as (q' & tl & ->). rewrite app_assoc in E. apply app_inj_tail in E as [E _]. now exists q'. }
+  destruct Hpre as (q' & ->). apply Hn. apply in_or_app. now left.
+Qed.
+Print Assumptions message_in_pieces.
+
+(* C08 for one message arriving in pieces: whatever the message contains (as long as CR and LF occur only as its last byte)
+   and however it is cut -- byte at a time included -- the context after the last piece is the one after a single call *)
+Theorem one_message_any_partition d c msg t chunks : mem c = [] -> no_nl msg -> Z.of_nat (length msg) + 1 <= cap c - 1 ->
+  chunks <> [] -> Forall (fun x => x <> []) chunks -> concat chunks = msg ++ [t] ->
+  feed c chunks d = fst (input_core c (msg ++ [t]) d).
+Proof.
+  intros Hm Hn Hfit Hne Hall Hc. rewrite <- Hc. apply partition_one_message; try assumption. rewrite Hc. now apply message_in_pieces.
+Qed.
+Print Assumptions one_message_any_partition.
